@@ -449,10 +449,10 @@ fn bfs<T: Clone + Serialize>(root: T, n_actions: usize, depth: usize, apply: &dy
 
 fn depth_for(tier: Tier, subject: &str) -> usize {
     match (tier, subject) {
-        (Tier::Quick, "fc" | "gen" | "res") => 4,
-        (Tier::Thorough, "fc" | "gen" | "res") => 6,
-        (Tier::Quick, _) => 3,
-        (Tier::Thorough, _) => 5,
+        (Tier::Quick, "fc" | "gen" | "res") => 6,
+        (Tier::Thorough, "fc" | "gen" | "res") => 8,
+        (Tier::Quick, _) => 4,
+        (Tier::Thorough, _) => 6,
     }
 }
 
